@@ -13,6 +13,13 @@ ATTRS = {
     "not(backtrace)": dict(src=None, bt=False, ign=False),
     "ignore": dict(src=None, bt=None, ign=True),
     "source, backtrace": dict(src=True, bt=True, ign=False),
+    # several parameters in one attribute, a `not(..)` group first (the order must not matter)
+    "not(backtrace), source": dict(src=True, bt=False, ign=False),
+    "not(source), backtrace": dict(src=False, bt=True, ign=False),
+}
+ATTRS_THOROUGH = {
+    "source, not(backtrace)": dict(src=True, bt=False, ign=False),
+    "backtrace, not(source)": dict(src=False, bt=True, ign=False),
 }
 
 
@@ -215,6 +222,8 @@ pub fn run(r: &mut R) {
 
 def run(chk, tier):
     thorough = tier == "thorough"
+    if thorough:
+        ATTRS.update(ATTRS_THOROUGH)
     nmax = 3
     # ---------------- seam A: every layout through the real expander, in-process
     reqs, metas = [], []
@@ -258,7 +267,7 @@ def run(chk, tier):
         chk.outcome("wrong-field")
         chk.violation("wrong source field %s" % feat, item, "documented rules select field %s, expansion uses field %s" % (wsrc, got))
     chk.part("A_inprocess", layouts=len(reqs), ambiguous_layouts=amb_count,
-             space="struct and enum variant x named/tuple x 0..3 fields x 7 attribute choices per field x names {source, backtrace, other} x types {error, *::Backtrace}")
+             space="struct and enum variant x named/tuple x 0..3 fields x 9 (thorough: 11) attribute choices per field x names {source, backtrace, other} x types {error, *::Backtrace}")
     # ---------------- seam B: run time, address identity (stable: layouts without a backtrace)
     cases = []
     nb = 3 if thorough else 2
@@ -267,7 +276,7 @@ def run(chk, tier):
             wsrc, wbt = model(fields, named)
         except Amb:
             continue
-        if wbt is not None or any(f["attr"] in ("backtrace", "source, backtrace") for f in fields):
+        if wbt is not None or any(ATTRS[f["attr"]]["bt"] is True for f in fields):
             continue  # `provide` needs nightly
         n = len(fields)
         interesting = any(f["attr"] == "ignore" for f in fields) or wsrc is not None
